@@ -1,0 +1,87 @@
+//go:build verif
+
+package errbase
+
+import "sort"
+
+// This file is only compiled with the "verif" build tag. It gives
+// an external verification harness read access to the set of keys in
+// the type registries, and a way to simulate a process that does not
+// know some error types. Nothing here is used by the library itself.
+
+// VerifRegisteredKeys lists the type keys present in each registry.
+func VerifRegisteredKeys() map[string][]string {
+	out := map[string][]string{}
+	add := func(name string, keys []TypeKey) {
+		s := make([]string, 0, len(keys))
+		for _, k := range keys {
+			s = append(s, string(k))
+		}
+		sort.Strings(s)
+		out[name] = s
+	}
+	var k []TypeKey
+	for x := range leafDecoders {
+		k = append(k, x)
+	}
+	add("leafDecoders", k)
+	k = nil
+	for x := range decoders {
+		k = append(k, x)
+	}
+	add("decoders", k)
+	k = nil
+	for x := range multiCauseDecoders {
+		k = append(k, x)
+	}
+	add("multiCauseDecoders", k)
+	k = nil
+	for x := range leafEncoders {
+		k = append(k, x)
+	}
+	add("leafEncoders", k)
+	k = nil
+	for x := range encoders {
+		k = append(k, x)
+	}
+	add("encoders", k)
+	k = nil
+	for x := range backwardRegistry {
+		k = append(k, x)
+	}
+	add("backwardRegistry", k)
+	return out
+}
+
+// VerifForgetTypes removes the decoders registered for the given
+// keys and returns a function that restores them.
+func VerifForgetTypes(keys []TypeKey) (restore func()) {
+	sl := map[TypeKey]LeafDecoder{}
+	sw := map[TypeKey]WrapperDecoder{}
+	sm := map[TypeKey]MultiCauseDecoder{}
+	for _, k := range keys {
+		if d, ok := leafDecoders[k]; ok {
+			sl[k] = d
+			delete(leafDecoders, k)
+		}
+		if d, ok := decoders[k]; ok {
+			sw[k] = d
+			delete(decoders, k)
+		}
+		if d, ok := multiCauseDecoders[k]; ok {
+			sm[k] = d
+			delete(multiCauseDecoders, k)
+		}
+	}
+	return func() {
+		for k, d := range sl {
+			leafDecoders[k] = d
+		}
+		for k, d := range sw {
+			decoders[k] = d
+		}
+		for k, d := range sm {
+			multiCauseDecoders[k] = d
+		}
+	}
+}
